@@ -421,44 +421,95 @@ func (a Float) M__round__(digitsObj Object) (Object, error) {
 
 // Rich comparison
 
+// Compares a with other which can be a float, an int of any size or a bool
+//
+// Returns cmp as -1, 0 or +1 and ordered as false if either value is
+// a nan.  ok is false if other isn't a number.
+//
+// Ints are compared by value, not after conversion to float, which
+// would round ints above 2**53 and fail for ints above the float
+// range.
+func floatCompare(a Float, other Object) (cmp int, ordered bool, ok bool) {
+	f := float64(a)
+	var i *big.Int
+	switch b := other.(type) {
+	case Float:
+		g := float64(b)
+		switch {
+		case math.IsNaN(f) || math.IsNaN(g):
+			return 0, false, true
+		case f < g:
+			return -1, true, true
+		case f > g:
+			return 1, true, true
+		}
+		return 0, true, true
+	case Int:
+		if b >= -(1<<float64precision) && b <= 1<<float64precision {
+			// exactly representable
+			return floatCompare(a, Float(b))
+		}
+		i = big.NewInt(int64(b))
+	case *BigInt:
+		i = (*big.Int)(b)
+	case Bool:
+		if b {
+			return floatCompare(a, Float(1))
+		}
+		return floatCompare(a, Float(0))
+	default:
+		return 0, false, false
+	}
+	switch {
+	case math.IsNaN(f):
+		return 0, false, true
+	case math.IsInf(f, 1):
+		return 1, true, true
+	case math.IsInf(f, -1):
+		return -1, true, true
+	}
+	// both conversions are exact
+	return new(big.Float).SetFloat64(f).Cmp(new(big.Float).SetInt(i)), true, true
+}
+
 func (a Float) M__lt__(other Object) (Object, error) {
-	if b, ok := convertToFloat(other); ok {
-		return NewBool(a < b), nil
+	if c, ordered, ok := floatCompare(a, other); ok {
+		return NewBool(ordered && c < 0), nil
 	}
 	return NotImplemented, nil
 }
 
 func (a Float) M__le__(other Object) (Object, error) {
-	if b, ok := convertToFloat(other); ok {
-		return NewBool(a <= b), nil
+	if c, ordered, ok := floatCompare(a, other); ok {
+		return NewBool(ordered && c <= 0), nil
 	}
 	return NotImplemented, nil
 }
 
 func (a Float) M__eq__(other Object) (Object, error) {
-	if b, ok := convertToFloat(other); ok {
-		return NewBool(a == b), nil
+	if c, ordered, ok := floatCompare(a, other); ok {
+		return NewBool(ordered && c == 0), nil
 	}
 	return NotImplemented, nil
 }
 
 func (a Float) M__ne__(other Object) (Object, error) {
-	if b, ok := convertToFloat(other); ok {
-		return NewBool(a != b), nil
+	if c, ordered, ok := floatCompare(a, other); ok {
+		return NewBool(!ordered || c != 0), nil
 	}
 	return NotImplemented, nil
 }
 
 func (a Float) M__gt__(other Object) (Object, error) {
-	if b, ok := convertToFloat(other); ok {
-		return NewBool(a > b), nil
+	if c, ordered, ok := floatCompare(a, other); ok {
+		return NewBool(ordered && c > 0), nil
 	}
 	return NotImplemented, nil
 }
 
 func (a Float) M__ge__(other Object) (Object, error) {
-	if b, ok := convertToFloat(other); ok {
-		return NewBool(a >= b), nil
+	if c, ordered, ok := floatCompare(a, other); ok {
+		return NewBool(ordered && c >= 0), nil
 	}
 	return NotImplemented, nil
 }
